@@ -28,7 +28,7 @@ Definition srv (mx : Z) (algs : option (list string)) (cu : list (string * optio
   {| s_max := mx; s_algs := algs; s_custom := cu |}.
 Definition rq (ce : list string) (b : bytes) : creq :=
   {| q_ce := ce; q_body := Some b; q_stream := false; q_rerr := false; q_cerr := false |}.
-Definition wr (ce : list string) (b : bytes) : wreq := {| w_ce := ce; w_body := b; w_cl := blen b |}.
+Definition wr (ce : list string) (b : bytes) : wreq := {| w_ce := ce; w_body := b; w_cl := blen b; w_rewind := Some b |}.
 
 (* all hypotheses of [roundtrip] hold for a concrete non-trivial instance, and the conclusion computes *)
 Example ex_roundtrip :
@@ -99,15 +99,15 @@ Proof. vm_compute. repeat split. Qed.
 
 (* a body sent without declared length (chunked) is limited like any other; the handler sees -1 *)
 Example ex_chunked :
-  server toy_dec toy_cdec (srv 3 None []) {| w_ce := []; w_body := [1;2;3;4;5]%N; w_cl := (-1) |}
+  server toy_dec toy_cdec (srv 3 None []) {| w_ce := []; w_body := [1;2;3;4;5]%N; w_cl := (-1); w_rewind := None |}
     = Handled [] (-1) ([1;2;3]%N, E_TOOLARGE) /\
-  server toy_dec toy_cdec (srv 3 None []) {| w_ce := [s_gzip]; w_body := [7;1;2;3;4]%N; w_cl := (-1) |}
+  server toy_dec toy_cdec (srv 3 None []) {| w_ce := [s_gzip]; w_body := [7;1;2;3;4]%N; w_cl := (-1); w_rewind := None |}
     = Handled [] (-1) ([1;2]%N, E_TOOLARGE) /\
   client toy_enc {| c_type := s_none; c_level := 0 |}
          {| q_ce := []; q_body := Some [1;2]%N; q_stream := true; q_rerr := false; q_cerr := false |}
-    = CSent {| w_ce := []; w_body := [1;2]%N; w_cl := (-1) |} /\
+    = CSent {| w_ce := []; w_body := [1;2]%N; w_cl := (-1); w_rewind := None |} /\
   client toy_enc (gz 0) {| q_ce := []; q_body := Some [1;2]%N; q_stream := true; q_rerr := false; q_cerr := false |}
-    = CSent {| w_ce := [s_gzip]; w_body := [7;1;2]%N; w_cl := 3 |}.
+    = CSent {| w_ce := [s_gzip]; w_body := [7;1;2]%N; w_cl := 3; w_rewind := Some [7;1;2]%N |}.
 Proof. vm_compute. repeat split. Qed.
 
 (* preset header: untouched *)
